@@ -113,6 +113,19 @@ impl<Key, Value> CommandExecutor<Key, Value>
 
         thread::spawn(move || {
             while let Ok(pair) = receiver.recv() {
+                #[cfg(cached_verif)]
+                let verif_ack = Arc::as_ptr(&pair.acknowledgement) as usize;
+                #[cfg(cached_verif)]
+                crate::cache::verif::emit(crate::cache::verif::Event::ApplyBegin {
+                    ack: verif_ack,
+                    kind: pair.command.description(),
+                    id: match &pair.command {
+                        CommandType::Put(key_description, _) => key_description.id,
+                        CommandType::PutWithTTL(key_description, _, _) => key_description.id,
+                        CommandType::UpdateWeight(key_id, _) => *key_id,
+                        _ => 0,
+                    },
+                });
                 let command = pair.command;
                 let status = match command {
                     CommandType::Put(key_description, value) =>
@@ -151,14 +164,24 @@ impl<Key, Value> CommandExecutor<Key, Value>
                     CommandType::Shutdown => {
                         info!("Received Shutdown command");
                         pair.acknowledgement.done(CommandStatus::Accepted);
+                        #[cfg(cached_verif)]
+                        crate::cache::verif::emit(crate::cache::verif::Event::ApplyEnd { ack: verif_ack, status: CommandStatus::Accepted });
+                        #[cfg(cached_verif)]
+                        crate::cache::verif::emit(crate::cache::verif::Event::Acked { ack: verif_ack });
                         for command_acknowledgement_pair in receiver.iter() {
                             command_acknowledgement_pair.acknowledgement.done(CommandStatus::ShuttingDown);
+                            #[cfg(cached_verif)]
+                            crate::cache::verif::emit(crate::cache::verif::Event::Drained { ack: Arc::as_ptr(&command_acknowledgement_pair.acknowledgement) as usize });
                         }
                         drop(receiver);
                         break;
                     }
                 };
+                #[cfg(cached_verif)]
+                crate::cache::verif::emit(crate::cache::verif::Event::ApplyEnd { ack: verif_ack, status });
                 pair.acknowledgement.done(status);
+                #[cfg(cached_verif)]
+                crate::cache::verif::emit(crate::cache::verif::Event::Acked { ack: verif_ack });
             }
         });
     }
